@@ -1,4 +1,5 @@
 """Dispatch: python -m harness.main <Cxx> <tier> [only]"""
+import os
 import sys
 import importlib
 
@@ -32,6 +33,10 @@ def main():
     if prop not in TABLE:
         print("no check registered for %s" % prop)
         return 3
+    if tier == 'thorough' and not os.environ.get('VERIF_CHECK_BUDGET_S'):
+        # the thorough tier is bounded: work items not STARTED within this many seconds are skipped and listed under
+        # budget_reached in the evidence (they contribute nothing to the counts)
+        os.environ['VERIF_CHECK_BUDGET_S'] = '1800'
     modname, fn = TABLE[prop]
     m = importlib.import_module(modname)
     return fn(m, tier, only)
